@@ -436,7 +436,17 @@ INPUT_NAME = "In Val"
 OUT_TAGS = ["decision", "bkm", "service"]
 
 
-def model_xml(tree, outputs, direct=True):
+def multi_keys(v):
+    """entry names of a context value that can be produced by a decision service with one output decision per entry (>= 2 entries)"""
+    if not (isinstance(v, dict) and "c" in v and len(v["c"]) >= 2):
+        return None
+    keys = [k for k, _ in v["c"]]
+    if len(set(keys)) != len(keys) or any(k in ("Echo", "Id", "Multi", INPUT_NAME) or k.startswith(("Out ", "Raw ", "Svc ")) for k in keys):
+        return None
+    return keys
+
+
+def model_xml(tree, outputs, direct=True, multi=None):
     """One model per tree:
       inputData `In Val` : T  -> decision `Echo` = In Val                       (what reaches the logic)
       BKM `Id`(p) : T = p                                                       (typed BKM result, value supplied as p)
@@ -455,14 +465,25 @@ def model_xml(tree, outputs, direct=True):
         els.append('<decision name="Raw %d" id="_raw%d"><variable name="Raw %d"/>%s</decision>' % (i, i, i, X.literal_expression(text)))
         els.append('<decisionService name="Svc %d" id="_svc%d"><variable name="Svc %d" typeRef="%s"/><outputDecision href="#_raw%d"/>'
                    '</decisionService>' % (i, i, i, tr, i))
+    if multi is not None:
+        # decision service `Multi` : T with one (untyped) output decision per entry of the context value outputs[multi]: its result is the
+        # context of the output decisions' results, coerced to T like any other result
+        entries = outputs[multi]["c"]
+        for j, (k, x) in enumerate(entries):
+            els.append('<decision name="%s" id="_mp%d"><variable name="%s"/>%s</decision>' % (X.esc(k), j, X.esc(k), X.literal_expression(feel_text(x))))
+        els.append('<decisionService name="Multi" id="_multi"><variable name="Multi" typeRef="%s"/>%s</decisionService>' % (
+            tr, "".join('<outputDecision href="#_mp%d"/>' % j for j in range(len(entries)))))
     return X.definitions("itemdefs", defs.out + els)
 
 
-def invocable_names(n_outputs):
+def invocable_names(n_outputs, keys=None):
     """order in which the driver lists them: decisions in document order, BKMs, services"""
     names = ["Echo"]
     for i in range(n_outputs):
         names += ["Out %d" % i, "Raw %d" % i]
+    names += list(keys or [])
     names.append("Id")
     names += ["Svc %d" % i for i in range(n_outputs)]
+    if keys:
+        names.append("Multi")
     return names
